@@ -406,7 +406,7 @@ CHECKS = {
                  "by 1-2 faults - bit flip, byte overwrite with a protocol byte, truncation, type byte swap, insertion of an array header, a length field rewritten to one of "
                  "18 hostile values (-2, -2^31, -2^63, 2^63-1, 2^63, 10^20, 2^29..10^15, '-0', '+5', '1e3', empty) - and fed to readNextMessage / streamTo through a reader that "
                  "returns 1, 3, 7, 64 or all bytes per read; enumerated part: for single-frame streams every offset 0..511 for each fault kind; oracle: no panic (recover), "
-                 "bytes allocated while decoding <= 64 x bytes received + 64 MiB; system part (garbage-system): the same damage applied to the pending reply stream of a live "
+                 "bytes allocated while decoding <= 64 x bytes received + 16 MiB; system part (garbage-system): the same damage applied to the pending reply stream of a live "
                  "connection of a real client under load: the process survives and every call returns; children run under a 16 GiB address-space limit; "
                  "non-trivial = a fault was applied; distinct = distinct damaged stream (decoder part) or event-log hash"),
         "parts": [
@@ -416,7 +416,7 @@ CHECKS = {
         ],
         "expected_probes": ["mutation-len", "mutation-trunc", "stream-corrupted-in-flight"],
         "components": {"real": "resp.go decoder (readNextMessage, streamTo) called in-package; all of package rueidis in the system part", "stubs": STUBS},
-        "assumptions": ["'far beyond the bytes received' is taken as more than 64 x received + 64 MiB", "the 'all byte sequences' quantifier is sampled input generation around well-formed streams"],
+        "assumptions": ["'far beyond the bytes received' is taken as more than 64 x received + 16 MiB", "the 'all byte sequences' quantifier is sampled input generation around well-formed streams"],
     },
     "C47": {
         "level": "fault_enumeration",
